@@ -69,7 +69,7 @@ func genInvalidJSON(t *rapid.T, valid string) string {
 		default:
 			s = strings.Replace(valid, ":", "=", 1)
 		}
-		if !json.Valid([]byte(s)) && validUTF8(s) {
+		if !json.Valid([]byte(s)) && vhValidUTF8(s) {
 			return s
 		}
 	}
@@ -103,17 +103,17 @@ func storeJSON(api string, opt *JSONCfg, test string, doc, form string) (string,
 	r := call.invoke(spec.build(root), ft)
 	ft.finish()
 	if out, err := outcomeOf(r); err != nil || out != oAdded {
-		return "", fmt.Errorf("storing %s form of %q: outcome %q err %v errors=%q", form, clip(doc), out, err, clipAll(r.Errors))
+		return "", fmt.Errorf("storing %s form of %q: outcome %q err %v errors=%q", form, vhClip(doc), out, err, vhClipAll(r.Errors))
 	}
 	if !r.InputOK {
-		return "", fmt.Errorf("storing %s form of %q modified the caller's input", form, clip(doc))
+		return "", fmt.Errorf("storing %s form of %q modified the caller's input", form, vhClip(doc))
 	}
 	if api == "sjson" {
-		return readFile(filepath.Join(root, spec.standalonePath(test, 1, true))), nil
+		return vhReadFile(filepath.Join(root, spec.standalonePath(test, 1, true))), nil
 	}
-	es, err := refParse(readFile(filepath.Join(root, spec.multiPath())))
+	es, err := refParse(vhReadFile(filepath.Join(root, spec.multiPath())))
 	if err != nil || len(es) != 1 {
-		return "", fmt.Errorf("storing %q: file has %d entries (%v)", clip(doc), len(es), err)
+		return "", fmt.Errorf("storing %q: file has %d entries (%v)", vhClip(doc), len(es), err)
 	}
 	return string(es[0].Body), nil
 }
@@ -181,7 +181,7 @@ func checkC14(c c14Case) error {
 		return err
 	}
 	if defAfter != defBefore {
-		return fmt.Errorf("the default configuration stores %q differently after calls with options %+v (member order must not matter, keys are sorted by default):\nbefore %q\nafter  %q", clip(compact), c.Opt, clip(defBefore), clip(defAfter))
+		return fmt.Errorf("the default configuration stores %q differently after calls with options %+v (member order must not matter, keys are sorted by default):\nbefore %q\nafter  %q", vhClip(compact), c.Opt, vhClip(defBefore), vhClip(defAfter))
 	}
 	if err := checkC14Body(c, compact); err != nil {
 		return err
@@ -239,10 +239,10 @@ func checkC14(c c14Case) error {
 		a, _ := parseJNode(viaText)
 		b, perr := parseJNode(viaValue)
 		if perr != nil || a.Canon() != b.Canon() {
-			return fmt.Errorf("Go value %T stores %q, its standard JSON encoding %q stores %q", v, clip(viaValue), mb, clip(viaText))
+			return fmt.Errorf("Go value %T stores %q, its standard JSON encoding %q stores %q", v, vhClip(viaValue), mb, vhClip(viaText))
 		}
 		if (c.Opt == nil || c.Opt.SortKeys) && viaText != viaValue {
-			return fmt.Errorf("Go value %T and its standard JSON encoding %q store different texts although this configuration sorts members:\nvalue %q\ntext  %q", v, mb, clip(viaValue), clip(viaText))
+			return fmt.Errorf("Go value %T and its standard JSON encoding %q store different texts although this configuration sorts members:\nvalue %q\ntext  %q", v, mb, vhClip(viaValue), vhClip(viaText))
 		}
 	}
 	return nil
@@ -266,12 +266,12 @@ func storeJSONValue(api string, opt *JSONCfg, test string, v any) (string, error
 	}
 	ft.finish()
 	if e, _ := ft.drain(); len(e) != 0 {
-		return "", fmt.Errorf("storing the value failed: %q", clipAll(e))
+		return "", fmt.Errorf("storing the value failed: %q", vhClipAll(e))
 	}
 	if api == "sjson" {
-		return readFile(filepath.Join(root, spec.standalonePath(test, 1, true))), nil
+		return vhReadFile(filepath.Join(root, spec.standalonePath(test, 1, true))), nil
 	}
-	es, err := refParse(readFile(filepath.Join(root, spec.multiPath())))
+	es, err := refParse(vhReadFile(filepath.Join(root, spec.multiPath())))
 	if err != nil || len(es) != 1 {
 		return "", fmt.Errorf("storing the value: %d entries (%v)", len(es), err)
 	}
@@ -286,32 +286,32 @@ func checkC14Body(c c14Case, compact string) error {
 	}
 	// (3) lossless and valid
 	if !json.Valid([]byte(base)) {
-		return fmt.Errorf("stored text is not valid JSON: %q", clip(base))
+		return fmt.Errorf("stored text is not valid JSON: %q", vhClip(base))
 	}
 	got, err := parseJNode(base)
 	if err != nil {
-		return fmt.Errorf("stored text does not parse: %v: %q", err, clip(base))
+		return fmt.Errorf("stored text does not parse: %v: %q", err, vhClip(base))
 	}
 	if got.Canon() != c.Tree.Canon() {
-		return fmt.Errorf("stored text %q is not the JSON value of the input %q", clip(base), clip(compact))
+		return fmt.Errorf("stored text %q is not the JSON value of the input %q", vhClip(base), vhClip(compact))
 	}
 	if !sortKeys && got.Compact() != c.Tree.Compact() {
-		return fmt.Errorf("SortKeys=false but member order changed: input %q stored %q", clip(compact), clip(base))
+		return fmt.Errorf("SortKeys=false but member order changed: input %q stored %q", vhClip(compact), vhClip(base))
 	}
 	if strings.HasSuffix(base, "\n") {
-		return fmt.Errorf("stored text ends with a newline: %q", clip(base))
+		return fmt.Errorf("stored text ends with a newline: %q", vhClip(base))
 	}
 	// (2) whitespace variants, member order
 	if sp, err := storeJSON(c.API, c.Opt, c.Test, string(c.Spaced), "string"); err != nil {
 		return err
 	} else if sp != base {
-		return fmt.Errorf("texts differing only in insignificant whitespace store differently:\n%q ->\n%q\n%q ->\n%q", clip(compact), clip(base), clip(string(c.Spaced)), clip(sp))
+		return fmt.Errorf("texts differing only in insignificant whitespace store differently:\n%q ->\n%q\n%q ->\n%q", vhClip(compact), vhClip(base), vhClip(string(c.Spaced)), vhClip(sp))
 	}
 	if sortKeys {
 		if pm, err := storeJSON(c.API, c.Opt, c.Test, string(c.Permuted), "bytes"); err != nil {
 			return err
 		} else if pm != base {
-			return fmt.Errorf("texts differing only in member order store differently (keys are sorted by this configuration):\n%q ->\n%q\n%q ->\n%q", clip(compact), clip(base), clip(string(c.Permuted)), clip(pm))
+			return fmt.Errorf("texts differing only in member order store differently (keys are sorted by this configuration):\n%q ->\n%q\n%q ->\n%q", vhClip(compact), vhClip(base), vhClip(string(c.Permuted)), vhClip(pm))
 		}
 	}
 	// (1) forms: s = json.Marshal(v); stored(s) == stored([]byte(s)) == stored(v)
@@ -336,14 +336,14 @@ func checkC14Body(c c14Case, compact string) error {
 			return err
 		}
 		if ss != sb || (sortKeys && ss != sv) {
-			return fmt.Errorf("the three input forms of %q store differently:\nstring %q\nbytes  %q\nvalue  %q", clip(s), clip(ss), clip(sb), clip(sv))
+			return fmt.Errorf("the three input forms of %q store differently:\nstring %q\nbytes  %q\nvalue  %q", vhClip(s), vhClip(ss), vhClip(sb), vhClip(sv))
 		}
 		if !sortKeys {
 			// json.Marshal sorts map keys; with SortKeys=false compare as values
 			a, _ := parseJNode(ss)
 			b, perr := parseJNode(sv)
 			if perr != nil || a.Canon() != b.Canon() {
-				return fmt.Errorf("value form stores another JSON value than the string form: %q vs %q", clip(sv), clip(ss))
+				return fmt.Errorf("value form stores another JSON value than the string form: %q vs %q", vhClip(sv), vhClip(ss))
 			}
 		}
 	}
@@ -370,11 +370,11 @@ func checkC14Body(c c14Case, compact string) error {
 	r := Call{API: c.API, Doc: c.Invalid, Form: c.InvForm}.invoke(cfg, ft)
 	out, oerr := outcomeOf(r)
 	if oerr != nil || out != oFailed {
-		return fmt.Errorf("input %q is not valid JSON (encoding/json) but the call ended as %q (%v)", clip(string(c.Invalid)), out, oerr)
+		return fmt.Errorf("input %q is not valid JSON (encoding/json) but the call ended as %q (%v)", vhClip(string(c.Invalid)), out, oerr)
 	}
 	for p, f := range snapDir(root) {
 		if !f.IsDir {
-			return fmt.Errorf("invalid input %q wrote %q", clip(string(c.Invalid)), p)
+			return fmt.Errorf("invalid input %q wrote %q", vhClip(string(c.Invalid)), p)
 		}
 	}
 	r = Call{API: c.API, Doc: BS(compact), Form: "string"}.invoke(cfg, ft)
@@ -385,10 +385,10 @@ func checkC14Body(c c14Case, compact string) error {
 	if c.API == "sjson" {
 		want := spec.standalonePath(c.Test, 2, true)
 		if _, err := os.Stat(filepath.Join(root, want)); err != nil {
-			return fmt.Errorf("the failing call must consume its ordinal: second call should create %q; directory has %v", want, keysOfState(snapDir(root)))
+			return fmt.Errorf("the failing call must consume its ordinal: second call should create %q; directory has %v", want, vhKeysOfState(snapDir(root)))
 		}
 	} else {
-		es, _ := refParse(readFile(filepath.Join(root, spec.multiPath())))
+		es, _ := refParse(vhReadFile(filepath.Join(root, spec.multiPath())))
 		if len(es) != 1 || string(es[0].ID) != entryID(c.Test, 2) {
 			return fmt.Errorf("the failing call must consume its ordinal: second call should create %q, file has %s", entryID(c.Test, 2), describeEntries(es))
 		}
@@ -400,7 +400,7 @@ func checkC14Body(c c14Case, compact string) error {
 	newProcess(Mode{})
 	ft5 := newFakeT(c.Test)
 	if r0 := (Call{API: c.API, Doc: BS(compact), Form: "string"}).invoke(spec.build(root5), ft5); len(r0.Errors) != 0 {
-		return fmt.Errorf("harness: storing the valid document: %q", clipAll(r0.Errors))
+		return fmt.Errorf("harness: storing the valid document: %q", vhClipAll(r0.Errors))
 	}
 	ft5.finish()
 	// (6) a VALID document that differs from the stored one in the last digit of a long number (an id beyond 2^53, a
@@ -412,25 +412,25 @@ func checkC14Body(c c14Case, compact string) error {
 		r6 := Call{API: c.API, Doc: BS(nb), Form: "string"}.invoke(spec.build(root5), ft6)
 		ft6.finish()
 		if out, oerr := outcomeOf(r6); oerr != nil || out != oFailed {
-			return fmt.Errorf("document %q differs from the stored %q in one digit, but the read-only call ended as %q (%v)", clip(nb), clip(compact), out, oerr)
+			return fmt.Errorf("document %q differs from the stored %q in one digit, but the read-only call ended as %q (%v)", vhClip(nb), vhClip(compact), out, oerr)
 		}
 		newProcess(Mode{Update: "true"})
 		ft6 = newFakeT(c.Test)
 		r6 = Call{API: c.API, Doc: BS(nb), Form: "bytes"}.invoke(spec.build(root5), ft6)
 		ft6.finish()
 		if out, oerr := outcomeOf(r6); oerr != nil || out != oUpdated {
-			return fmt.Errorf("document %q differs from the stored %q in one digit, but the updating call ended as %q (%v)", clip(nb), clip(compact), out, oerr)
+			return fmt.Errorf("document %q differs from the stored %q in one digit, but the updating call ended as %q (%v)", vhClip(nb), vhClip(compact), out, oerr)
 		}
 		var got string
 		if c.API == "sjson" {
-			got = readFile(filepath.Join(root5, spec.standalonePath(c.Test, 1, true)))
-		} else if es, _ := refParse(readFile(filepath.Join(root5, spec.multiPath()))); len(es) == 1 {
+			got = vhReadFile(filepath.Join(root5, spec.standalonePath(c.Test, 1, true)))
+		} else if es, _ := refParse(vhReadFile(filepath.Join(root5, spec.multiPath()))); len(es) == 1 {
 			got = string(es[0].Body)
 		}
 		a, aerr := parseJNode(got)
 		b, _ := parseJNode(nb)
 		if aerr != nil || a.Canon() != b.Canon() {
-			return fmt.Errorf("after the update the stored text %q does not parse to the value of %q", clip(got), clip(nb))
+			return fmt.Errorf("after the update the stored text %q does not parse to the value of %q", vhClip(got), vhClip(nb))
 		}
 		compact = nb // (what the slot holds from here on)
 	}
@@ -450,10 +450,10 @@ func checkC14Body(c c14Case, compact string) error {
 		r5 := Call{API: c.API, Doc: BS(pick), Form: c.InvForm}.invoke(spec.build(root5), ft5)
 		ft5.finish()
 		if out, oerr := outcomeOf(r5); oerr != nil || out != oFailed {
-			return fmt.Errorf("input %q is not valid JSON; with the valid document %q already stored (mode %+v) the call ended as %q (%v)", clip(pick), clip(compact), mode, out, oerr)
+			return fmt.Errorf("input %q is not valid JSON; with the valid document %q already stored (mode %+v) the call ended as %q (%v)", vhClip(pick), vhClip(compact), mode, out, oerr)
 		}
 		if d := diffDirs(pre, snapDir(root5), true); d != "" {
-			return fmt.Errorf("invalid input %q (valid document already stored, mode %+v) wrote: %s", clip(pick), mode, d)
+			return fmt.Errorf("invalid input %q (valid document already stored, mode %+v) wrote: %s", vhClip(pick), mode, d)
 		}
 	}
 	return nil
@@ -598,7 +598,7 @@ func checkC14BufferReuse(c c14Case, compact string) error {
 			cfg.MatchJSON(ft, buf, ms...)
 		}
 		if string(buf) != d {
-			return fmt.Errorf("the call modified the caller's buffer: %q -> %q", clip(d), clip(string(buf)))
+			return fmt.Errorf("the call modified the caller's buffer: %q -> %q", vhClip(d), vhClip(string(buf)))
 		}
 		// the same document as a string right after it
 		if i%2 == 1 {
@@ -611,7 +611,7 @@ func checkC14BufferReuse(c c14Case, compact string) error {
 	}
 	ft.finish()
 	if e, _ := ft.drain(); len(e) != 0 {
-		return fmt.Errorf("buffer reuse: calls failed: %q", clipAll(e))
+		return fmt.Errorf("buffer reuse: calls failed: %q", vhClipAll(e))
 	}
 	var got []string
 	if c.API == "sjson" {
@@ -620,10 +620,10 @@ func checkC14BufferReuse(c c14Case, compact string) error {
 			if _, err := os.Stat(p); err != nil {
 				break
 			}
-			got = append(got, readFile(p))
+			got = append(got, vhReadFile(p))
 		}
 	} else {
-		es, err := refParse(readFile(filepath.Join(root, spec.multiPath())))
+		es, err := refParse(vhReadFile(filepath.Join(root, spec.multiPath())))
 		if err != nil {
 			return fmt.Errorf("buffer reuse: %v", err)
 		}
@@ -646,7 +646,7 @@ func checkC14BufferReuse(c c14Case, compact string) error {
 				return fmt.Errorf("buffer reuse: %d snapshots stored, more expected", len(got))
 			}
 			if got[k] != want[i] {
-				return fmt.Errorf("assertion %d passes %q (the caller's buffer rewritten in place, same length as the previous document %q) but the stored text is %q; a fresh process stores %q", k+1, clip(d), clip(docs[max(i-1, 0)]), clip(got[k]), clip(want[i]))
+				return fmt.Errorf("assertion %d passes %q (the caller's buffer rewritten in place, same length as the previous document %q) but the stored text is %q; a fresh process stores %q", k+1, vhClip(d), vhClip(docs[max(i-1, 0)]), vhClip(got[k]), vhClip(want[i]))
 			}
 			k++
 		}
